@@ -129,7 +129,7 @@ def _matrix(rng, n, cond):
 def _fsolve_problem(rng):
     """returns desc(dict), f(x, *args), jac(x, *args) dense, x0, fun_args"""
     n = int(rng.integers(1, 9))
-    fam = ["lin+tanh", "sin", "cubic", "exp", "noroot", "linear"][int(rng.choice(6, p=[0.25, 0.2, 0.2, 0.15, 0.1, 0.1]))]
+    fam = ["lin+tanh", "sin", "cubic", "exp", "noroot", "linear", "logdomain"][int(rng.choice(7, p=[0.22, 0.18, 0.18, 0.13, 0.1, 0.1, 0.09]))]
     r = rng.random()
     cond = 1.0 + rng.random() * 10 if r < 0.5 else (_lu(rng, 1e1, 1e6) if r < 0.75 else _lu(rng, 1e6, 1e13))
     A = _matrix(rng, n, cond)
@@ -149,6 +149,11 @@ def _fsolve_problem(rng):
     elif fam == "exp":
         f = lambda x, c=c: A @ (x - c) + kap * (np.exp(0.3 * (x - c)) - 1.0)
         J = lambda x, c=c: A + 0.3 * kap * np.diag(np.exp(0.3 * (x - c)))
+    elif fam == "logdomain":
+        # f = log(x) - c componentwise (root exp(c)); started above e*root the first Newton step leaves the domain and the
+        # residual becomes NaN - a failed solve that must neither be reported as success nor stay without a warning
+        f = lambda x, c=c: np.log(x) - c
+        J = lambda x, c=c: np.diag(1.0 / x)
     elif fam == "noroot":
         f = lambda x, c=c: (x - c) ** 2 + eps0
         J = lambda x, c=c: 2.0 * np.diag(x - c)
@@ -158,6 +163,10 @@ def _fsolve_problem(rng):
     dist = [0.0, _lu(rng, 1e-10, 1e-4), _lu(rng, 1e-3, 1e-1), _lu(rng, 0.1, 10.0)][int(rng.choice(4, p=[0.03, 0.17, 0.4, 0.4]))]
     d = rng.normal(size=n)
     x0 = c + dist * d / np.linalg.norm(d)
+    if fam == "logdomain":
+        c = np.clip(c, -3, 3)
+        x0 = np.exp(c) * (np.exp(rng.uniform(1.2, 3.0, size=n)) if rng.random() < 0.7 else np.exp(rng.uniform(-0.5, 0.5, size=n)))
+        f = lambda x, c=c: np.log(x) - c
     desc = {"family": fam, "n": n, "cond_A": cond, "A": A, "c": c, "kappa": kap, "B": B if fam == "sin" else None,
             "eps0": eps0 if fam == "noroot" else None, "x0": x0, "dist_x0": dist}
     return desc, f, J, x0
@@ -298,8 +307,12 @@ def _fp_problem(rng, momentum):
         c = np.zeros(n)
     elif r < 0.5:
         c = np.full(n, rng.normal() * _lu(rng, 1e-2, 1e3)) * (1 + 1e-3 * rng.normal(size=n))
-    else:
+    elif r < 0.8 or n == 1:
         c = rng.normal(size=n) * _lu(rng, 1e-3, 1e3)
+    else:
+        # unknowns of very different magnitude (positions next to percussions scaled by dt): the relative part of the
+        # tolerance then differs by many decades between components
+        c = rng.normal(size=n) * 10.0 ** rng.uniform(-4, 6, size=n)
     Q, P = _orth(rng, n), _orth(rng, n)
     gain = _lu(rng, 1e-2, 1e2)
     d = rng.normal(size=n)
@@ -414,6 +427,16 @@ def _fp_check(ctx, which, helper, desc, F, L, x0, atol, rtol, max_iter):
                 why = "image of a pair that met the criterion"
                 bound = max(bound, L * float(np.max(crit[j][1]) / np.min(s_ret)))
     ctx.cls(f"{which}:returned point is {why}")
+    # componentwise reading of 'meets the absolute/relative tolerance it was given': a pair that is accepted has a scaled
+    # rms increment below one, hence no single component above sqrt(n) times its own tolerance
+    if pairs and np.array_equal(pairs[-1][1], xs):
+        a_, b_ = pairs[-1]
+        comp = np.abs(b_ - a_) / (atol + rtol * np.maximum(np.abs(a_), np.abs(b_)))
+        ctx.mon(f"{which}.componentwise")
+        if np.max(comp) > np.sqrt(len(xs)) * (1 + 1e-9):
+            ctx.violation(site, "returned after a sweep in which a component changed by more than its own absolute/relative tolerance allows",
+                          {"map": desc, "atol": atol, "rtol": rtol, "last_increment_over_tolerance_per_component": comp,
+                           "allowed_by_an_rms_criterion_below_one": float(np.sqrt(len(xs))), "reported_error": out[2] if len(out) > 2 else None})
     witness.update({"returned_x": xs, "F_at_returned_x": Fxs, "scaled_rms_residual_at_returned_x": T,
                     "bound_for_a_correct_helper": bound, "reported_n_iter": out[1] if len(out) > 1 else None,
                     "reported_error": out[2] if len(out) > 2 else None,
